@@ -350,10 +350,14 @@ func (ii *invertedIndex) prepareFlush() {
 }
 
 func (ii *invertedIndex) needFlush() bool {
-	ii.lock.RLock()
-	defer ii.lock.RUnlock()
+	ii.lock.Lock()
+	defer ii.lock.Unlock()
 
-	return ii.immutable != nil && !ii.immutable.IsEmpty()
+	if ii.immutable != nil && ii.immutable.IsEmpty() {
+		// nothing was prepared: release it, otherwise PrepareFlush never swaps again and later data is never flushed
+		ii.immutable = nil
+	}
+	return ii.immutable != nil
 }
 
 func (ii *invertedIndex) flush() (err error) {
@@ -563,10 +567,14 @@ func (fi *forwardIndex) prepareFlush() {
 }
 
 func (fi *forwardIndex) needFlush() bool {
-	fi.lock.RLock()
-	defer fi.lock.RUnlock()
+	fi.lock.Lock()
+	defer fi.lock.Unlock()
 
-	return fi.immutable != nil && !fi.immutable.IsEmpty()
+	if fi.immutable != nil && fi.immutable.IsEmpty() {
+		// nothing was prepared: release it, otherwise PrepareFlush never swaps again and later data is never flushed
+		fi.immutable = nil
+	}
+	return fi.immutable != nil
 }
 
 func (fi *forwardIndex) flush() (err error) {
